@@ -1,9 +1,10 @@
 import MJ.Model.Bal
+import MJ.Model.BalGen
 /-! Line driver for C05: `D <TAB> case <TAB> stream <TAB> class <TAB> tok tok …` →
 `case <TAB> stream <TAB> ok <TAB> n=<instructions> loops=<k> …` or
 `case <TAB> stream <TAB> reject <TAB> <diagnosis>`.  The verdict is the VERIFIED `checkCert` run on
 the certificate proposed by the untrusted `inferCert`; the diagnosis is untrusted. -/
-open MJ MJ.Bal
+open MJ MJ.Bal MJ.BalGen
 
 def natAfter (s : String) (n : Nat) : Option Nat := (s.drop n).toString.toNat?
 
@@ -75,6 +76,112 @@ def diagnose (code : Code) (cert : Cert) : String :=
                 | none => "?"
         s!"pc={pc} {showInstr i} state {showAbs A}: {what}"
 
+/-! ## shape descriptor → statement AST of the model generator (independent of the real stream) -/
+
+def os (n : Nat) : Stmt := .simple (List.replicate n .other)
+
+/-- a sentinel piece `[dX]{{ h }}{{ w|default('-') }}{{ g }}{{ ma|default('') }}{{ probe() }}` -/
+def piece : Stmt := .simple (List.replicate 13 .other ++ [.callFunction, .other])
+
+def seqOf : List Stmt → Stmt
+  | [] => .skip
+  | [s] => s
+  | s :: rest => .seq s (seqOf rest)
+
+def leafStmts (leaf : String) : Option (List Stmt) :=
+  if leaf = "T" ∨ leaf = "empty" then some []
+  else if leaf = "brk" then some [.breakS]
+  else if leaf = "cont" then some [.continueS]
+  else if leaf = "rec" then some [.simple [.other, .fastRecurse]]
+  else if leaf = "recf" then some [.simple [.other, .callFunction, .other, .other]]
+  else if leaf = "fail" then some [.simple [.callFunction, .other]]
+  else if leaf = "failk" then some [.simple [.other, .other, .other, .callFunction, .other]]
+  else if leaf = "finc" then some [.simple [.other, .other]]
+  else none
+
+/-- statements of the chain from position `i` on, and the block streams defined below it -/
+def buildShape (leaf : String) : List String → Nat → Option (List Stmt × List (String × Stmt))
+  | [], _ => (leafStmts leaf).map (fun l => (l, []))
+  | kind :: rest, d =>
+    match buildShape leaf rest (d + 1) with
+    | none => none
+    | some (child, blocks) =>
+      let bare := leaf = "empty" ∧ rest = []
+      let inElse := kind = "forEl" ∨ kind = "ifEl"
+      let isSeq := kind.startsWith "seq"
+      let pc (absent : Bool) : List Stmt := if absent then [] else [piece]
+      let a := pc (bare ∧ ¬ inElse ∧ ¬ isSeq)
+      let b := pc (bare ∧ ¬ inElse)
+      let e := pc (bare ∧ inElse)
+      let f := pc (bare ∧ inElse)
+      let body := seqOf (a ++ child ++ b)
+      let elseL := e ++ child ++ f
+      let mk (l : List Stmt) := some (l ++ [piece], blocks)
+      if kind = "for" then mk [.forS true false 1 1 body]
+      else if kind = "fore" then mk [.forElse true false 1 1 body piece]
+      else if kind = "forEl" then
+        mk [if elseL.isEmpty then .forS true false 1 1 piece else .forElse true false 1 1 piece (seqOf elseL)]
+      else if kind = "forf" then
+        mk [os 2, .forS false false 0 2 (.ifElse 3 (os 3) (os 1)), os 1, .forS true false 0 1 body]
+      else if kind = "forr" then mk [.forS true true 1 1 body]
+      else if kind = "with" then mk [.withS 2 body]
+      else if kind = "set" then mk [.capture body 1, os 2]
+      else if kind = "filt" then mk [.capture body 2]
+      else if kind = "ae1" ∨ kind = "ae0" then mk [.autoEscape 1 body]
+      else if kind = "ifc" then mk [.ifS 1 body]
+      else if kind = "ifk" then mk [.ifS 3 body]
+      else if kind = "ifEl" then mk [if elseL.isEmpty then .ifS 1 piece else .ifElse 1 piece (seqOf elseL)]
+      else if kind = "mac" then mk [.macroS 0 body 2 1, .simple [.callFunction, .other]]
+      else if kind = "call" then
+        mk [.macroS 0 (.simple [.other, .callFunction, .other, .other]) 2 1, os 1, .macroS 0 body 2 1,
+            .simple [.callFunction, .other]]
+      else if kind = "blk" then some ([os 1, piece], (s!"b{d}", body) :: blocks)
+      else if kind = "seqW" then mk ([.withS 2 piece] ++ child)
+      else if kind = "seqS" then mk ([.capture piece 1, os 2] ++ child)
+      else if kind = "seqA" then mk ([.autoEscape 1 piece] ++ child)
+      else if kind = "seqL" then mk ([.forS true false 1 1 piece] ++ child)
+      else if kind = "seqI" then mk ([os 4] ++ child)
+      else if kind = "seqM" then mk ([.importS 1 4, .simple [.other, .callFunction, .other]] ++ child)
+      else if kind = "tmac" then mk [.macroS 1 body 2 1, .simple [.other, .other, .callFunction, .other]]
+      else if kind = "tcal" then
+        mk [.macroS 0 (.simple [.other, .other, .callFunction, .other, .other]) 2 1, os 1, .macroS 0 body 2 1,
+            .simple [.callFunction, .other]]
+      else if kind = "tblk" then
+        some ([.ifS 1 (os 1), .simple [.other, .callFunction, .other], piece], (s!"t{d}", body) :: blocks)
+      else none
+
+/-- the statement the model generator compiles for a stream of a shape -/
+def shapeStream (case stream : String) : Option Stmt :=
+  let parts := case.splitOn ">"
+  match parts.reverse with
+  | [] => none
+  | leaf :: revKinds =>
+    match buildShape leaf revKinds.reverse 1 with
+    | none => none
+    | some (top, blocks) =>
+      if stream = "main" then some (seqOf ([os 2, piece] ++ top ++ [piece]))
+      else if stream.startsWith "block:" then
+        (blocks.find? (fun x => x.1 = (stream.drop 6).toString)).map (·.2)
+      else none
+
+/-- model generator vs real stream, modulo `other` instructions -/
+def genVerdict (case stream : String) (real : Code) : String :=
+  if case.startsWith "file:" ∨ case.startsWith "extra:" ∨ case.startsWith "src:" then "gen=na"
+  else
+    match shapeStream case stream with
+    | none => "gen=unknown-shape"
+    | some st =>
+      let P := compileTemplate st
+      let model := P.map (·.1)
+      -- the certificate the model generator emits, checked by the verified checker (what
+      -- `compile_has_cert` proves for every statement)
+      let certOk := checkCert (codeOf P) (certOf P AbsState.init)
+      if !(BalGen.ok false st) then "gen=not-in-fragment"
+      else if skeleton model != skeleton real.toList then "gen=MISMATCH"
+      else if !certOk then "gen=CERT-REJECTED"
+      else if model == real.toList then "gen=exact"
+      else "gen=match"
+
 def handle (line : String) : String :=
   match line.splitOn "\t" with
   | ["D", case, stream, _cls, toks] =>
@@ -82,12 +189,13 @@ def handle (line : String) : String :=
     | none => s!"{case}\t{stream}\tbad-stream\tunknown token"
     | some code =>
       let cert := inferCert code
+      let gen := genVerdict case stream code
       if checkCert code cert then
         let reached := (List.range cert.size).filter (fun pc => (look cert pc).isSome)
         let maxd := reached.foldl (fun m pc => match look cert pc with
           | some a => Nat.max m (a.frames.length + a.caps + a.escs) | none => m) 0
-        s!"{case}\t{stream}\tok\tn={code.size} reached={reached.length} entries={(entries code).length} maxdepth={maxd}"
-      else s!"{case}\t{stream}\treject\t{diagnose code cert}"
+        s!"{case}\t{stream}\tok\tn={code.size} reached={reached.length} entries={(entries code).length} maxdepth={maxd} {gen}"
+      else s!"{case}\t{stream}\treject\t{diagnose code cert} {gen}"
   | _ => s!"?\t?\tbad-line\t{line.take 40}"
 
 partial def loop (h : IO.FS.Stream) (out : IO.FS.Stream) : IO Unit := do
